@@ -779,21 +779,22 @@ def _format_path(t_path, root=None):
         i += 2
         if op == 'P':
             if cur_t_path or (first_root is not None and not path_parts):
-                path_parts.append(cur_t_path)
+                path_parts.append((True, cur_t_path))
                 cur_t_path = []
-            path_parts.append(arg)
+            path_parts.append((False, arg))
         else:
             cur_t_path.append(op)
             cur_t_path.append(arg)
     if path_parts and cur_t_path:
-        path_parts.append(cur_t_path)
+        path_parts.append((True, cur_t_path))
 
     if path_parts or not cur_t_path:
         if not path_parts and first_root is not None:
-            path_parts.append([])
+            path_parts.append((True, []))
+        # (a plain segment may itself be a list: runs of T steps are marked, not recognised by type)
         return 'Path(%s)' % ', '.join([_format_t(part, root if n == 0 else T)
-                                       if type(part) is list else repr(part)
-                                       for n, part in enumerate(path_parts)])
+                                       if is_t_run else repr(part)
+                                       for n, (is_t_run, part) in enumerate(path_parts)])
     return _format_t(cur_t_path, root)
 
 
